@@ -344,6 +344,8 @@ Local Open Scope Q_scope.
 Ltac xq := cbn [fmax fmin add sub mul div neg eqb ltb leb zero one infinity of_Z of_Q is_nan QNum
                  x_add x_sub x_neg x_mul x_max x_min x_ltb x_leb x_eqb x_is_nan negb] in *.
 
+Ltac xq0 := cbn [fmax fmin add sub mul div neg eqb ltb leb zero one infinity of_Z of_Q is_nan QNum] in *.
+
 Lemma fin_inv (x : XQ) : finite x -> exists q, x = Fin q.
 Proof. destruct x; simpl; try contradiction; eauto. Qed.
 
@@ -564,3 +566,135 @@ Proof.
   apply x_leb_ltb in Hle. rewrite Hle, orb_false_r in Hv.
   apply x_leb_max. exact Hv.
 Qed.
+
+(* ---- distribute_space_up_to_limits as maximise_tracks uses it: every track affected, proportion 1, property
+   base_size, limit fit_content_limited_growth_limit *)
+Definition T_q : Q := DISTRIBUTE_THRESHOLD_Q.
+Lemma threshold_xq : @threshold XQ _ = Fin T_q.
+Proof. reflexivity. Qed.
+Lemma T_q_pos : 0 < T_q.
+Proof. unfold T_q, DISTRIBUTE_THRESHOLD_Q. reflexivity. Qed.
+
+Section Maximise.
+  Variable inner : option XQ.
+  Definition mlim (t : track XQ) : XQ := fit_content_limited_growth_limit inner t.
+  Definition all_aff : track XQ -> bool := fun _ => true.
+  Definition prop1 : track XQ -> XQ := fun _ => one.
+  Definition mgrow (t : track XQ) : bool := growable all_aff base_size mlim t.
+  Definition mapply := apply_increase all_aff prop1 base_size mlim.
+  Definition mstep := distribute_step all_aff prop1 base_size mlim.
+  Definition mloop := distribute_loop all_aff prop1 base_size mlim.
+
+  (* what one iteration does to one track *)
+  Definition accepted (inc : XQ) (t : track XQ) : bool :=
+    x_ltb (Fin 0) (x_mul inc (Fin 1)) && x_leb (x_add (base_size t) (x_mul inc (Fin 1))) (x_add (mlim t) (Fin T_q)).
+  Definition bump (inc : XQ) (t : track XQ) : track XQ :=
+    if accepted inc t then set_incurred t (x_add (incurred t) (x_mul inc (Fin 1))) else t.
+
+  Lemma mapply_map inc space tracks : snd (mapply inc space tracks) = map (bump inc) tracks.
+  Proof.
+    revert space. induction tracks as [|t r IH]; intro space; [reflexivity|].
+    unfold mapply. cbn [apply_increase all_aff map]. fold mapply. rewrite threshold_xq. unfold prop1. xq0.
+    unfold bump at 1. unfold accepted.
+    destruct (x_ltb (Fin 0) (x_mul inc (Fin 1)) && x_leb (x_add (base_size t) (x_mul inc (Fin 1))) (x_add (mlim t) (Fin T_q))) eqn:E.
+    - specialize (IH (x_sub space (x_mul inc (Fin 1)))).
+      destruct (mapply inc (x_sub space (x_mul inc (Fin 1))) r). simpl in *. rewrite IH. reflexivity.
+    - specialize (IH space). destruct (mapply inc space r). simpl in *. rewrite IH. reflexivity.
+  Qed.
+
+  (* t' is t with another item_incurred_increase *)
+  Definition upd (t t' : track XQ) : Prop := t' = set_incurred t (incurred t').
+  Lemma upd_refl t : upd t t.
+  Proof. destruct t; reflexivity. Qed.
+  Lemma upd_trans a b c : upd a b -> upd b c -> upd a c.
+  Proof. unfold upd. intros E1 E2. rewrite E2, E1. reflexivity. Qed.
+  Lemma upd_base t t' : upd t t' -> base_size t' = base_size t.
+  Proof. intro E. rewrite E. reflexivity. Qed.
+  Lemma upd_mlim t t' : upd t t' -> mlim t' = mlim t.
+  Proof. intro E. rewrite E. reflexivity. Qed.
+  Lemma upd_bump inc t : upd t (bump inc t).
+  Proof. unfold bump. destruct (accepted inc t); [reflexivity|apply upd_refl]. Qed.
+
+  Definition tfin (t : track XQ) : Prop := finite (base_size t) /\ finite (mlim t) /\ finite (incurred t).
+  Definition slack (t : track XQ) : Q := Qmax 0 (val (mlim t) - val (base_size t) + T_q).
+
+  Lemma upd_tfin_slack t t' : upd t t' -> slack t' = slack t.
+  Proof. intro E. unfold slack. rewrite (upd_mlim _ _ E), (upd_base _ _ E). reflexivity. Qed.
+
+  (* an accepted increase is a positive finite number that keeps base + increase within limit + THRESHOLD *)
+  Lemma accepted_inv inc t : tfin t -> accepted inc t = true ->
+    exists y, x_mul inc (Fin 1) = Fin y /\ 0 < y /\ val (base_size t) + y <= val (mlim t) + T_q.
+  Proof.
+    intros [Hb [Hl _]] Ha. destruct (fin_inv _ Hb) as [b Eb]. destruct (fin_inv _ Hl) as [l El].
+    unfold accepted in Ha. rewrite Eb, El in *. apply andb_true_iff in Ha. destruct Ha as [H1 H2].
+    destruct (x_mul inc (Fin 1)) as [y| | |] eqn:Ey; simpl in H1, H2; try discriminate.
+    exists y. split; [reflexivity|]. simpl.
+    apply Qle_bool_iff in H2. destruct (Qle_bool y 0) eqn:E0; [discriminate|]. apply Qle_bool_false in E0.
+    split; lra.
+  Qed.
+
+  Lemma bump_bound inc t : tfin t ->
+    finite (incurred (bump inc t)) /\
+    val (incurred t) <= val (incurred (bump inc t)) <= val (incurred t) + slack t.
+  Proof.
+    intro Hf. assert (Hs : 0 <= slack t) by (unfold slack; apply Q.le_max_l).
+    unfold bump. destruct (accepted inc t) eqn:Ea.
+    - destruct (accepted_inv inc t Hf Ea) as [y [Ey [Hy Hle]]].
+      destruct Hf as [_ [_ Hi]]. destruct (fin_inv _ Hi) as [i Ei].
+      simpl. rewrite Ey, Ei. simpl. split; [exact I|].
+      assert (y <= slack t).
+      { unfold slack. eapply Qle_trans; [|apply Q.le_max_r]. lra. }
+      lra.
+    - destruct Hf as [_ [_ Hi]]. split; [exact Hi|]. lra.
+  Qed.
+
+  Lemma mstep_some space tracks s' ts' : mstep space tracks = Some (s', ts') -> exists inc, ts' = map (bump inc) tracks.
+  Proof.
+    unfold mstep, distribute_step. destruct (ltb threshold space); [|discriminate].
+    destruct (eqb _ zero); [discriminate|]. intro E. inversion E as [E'].
+    match type of E' with
+    | apply_increase _ _ _ _ ?i _ _ = _ =>
+        exists i; rewrite <- (mapply_map i space tracks); unfold mapply; rewrite E'; reflexivity
+    end.
+  Qed.
+
+  Definition bounded (n : nat) (t t' : track XQ) : Prop :=
+    upd t t' /\ (tfin t -> finite (incurred t') /\
+                 val (incurred t) <= val (incurred t') <= val (incurred t) + inject_Z (Z.of_nat n) * slack t).
+
+  Lemma Forall2_map_self {A B} (P : A -> B -> Prop) (f : A -> B) l : (forall x, P x (f x)) -> Forall2 P l (map f l).
+  Proof. intro Hp. induction l; simpl; constructor; auto. Qed.
+  Lemma Forall2_of_map {A B C} (P : B -> C -> Prop) (f : A -> B) l l' :
+    Forall2 P (map f l) l' -> Forall2 (fun x y => P (f x) y) l l'.
+  Proof.
+    revert l'. induction l as [|a l IH]; intros l' Hf; simpl in Hf; inversion Hf; subst; constructor; auto.
+  Qed.
+
+  Lemma Forall2_weaken {A B} (P Q : A -> B -> Prop) l l' :
+    (forall x y, P x y -> Q x y) -> Forall2 P l l' -> Forall2 Q l l'.
+  Proof. intros Hpq Hf. induction Hf; constructor; auto. Qed.
+
+  Lemma mloop_bounded fuel : forall space tracks, Forall2 (bounded fuel) tracks (snd (mloop fuel space tracks)).
+  Proof.
+    induction fuel as [|f IH]; intros space tracks.
+    - simpl. rewrite <- (map_id tracks) at 2. apply Forall2_map_self. intro t. split; [apply upd_refl|].
+      intros [_ [_ Hi]]. split; [exact Hi|]. change (inject_Z (Z.of_nat 0)) with 0. lra.
+    - unfold mloop. simpl. fold mstep. destruct (mstep space tracks) as [[s' ts']|] eqn:Es.
+      + destruct (mstep_some _ _ _ _ Es) as [inc E]. subst ts'. fold mloop.
+        specialize (IH s' (map (bump inc) tracks)). apply Forall2_of_map in IH.
+        eapply Forall2_weaken; [|exact IH]. intros t t' [Hu Hb]. split.
+        * eapply upd_trans; [apply upd_bump|exact Hu].
+        * intro Hf. destruct (bump_bound inc t Hf) as [B1 B2].
+          assert (Hf' : tfin (bump inc t)).
+          { destruct Hf as [F1 [F2 F3]]. unfold tfin. rewrite (upd_base _ _ (upd_bump inc t)), (upd_mlim _ _ (upd_bump inc t)). auto. }
+          destruct (Hb Hf') as [C1 C2]. split; [exact C1|].
+          rewrite (upd_tfin_slack _ _ (upd_bump inc t)) in C2.
+          assert (Hs : 0 <= slack t) by (unfold slack; apply Q.le_max_l).
+          rewrite Nat2Z.inj_succ, <- Z.add_1_r, inject_Z_plus. change (inject_Z 1) with 1. lra.
+      + simpl. rewrite <- (map_id tracks) at 2. apply Forall2_map_self. intro t. split; [apply upd_refl|].
+        intros [_ [_ Hi]]. split; [exact Hi|].
+        assert (Hs : 0 <= slack t) by (unfold slack; apply Q.le_max_l).
+        assert (0 <= inject_Z (Z.of_nat (S f))) by (change 0 with (inject_Z 0); rewrite <- Zle_Qle; lia).
+        nra.
+  Qed.
+End Maximise.
